@@ -106,6 +106,9 @@ def run(ctx, w):
     nocontent(ctx, w, S, R, erase_fn)
     shared.stale_operands(ctx, w, S, R, "X8", ["Ed", "El", "Ech", "Ich", "Dch", "Il", "Dl"])
     ctx.floor("X8", 10, "cursor reads feeding buffer primitives")
+    from rules import prims
+    prims.row_primitives(ctx, w, S, "X9")
+    ctx.floor("X9", 100, "row primitive evaluations")
 
 
 def const_false(body, pt):
